@@ -101,3 +101,51 @@ Lemma default_module_prefix_legacy_refuted :
   /\ match_pattern_list_legacy O1 pl n_plugin None n_plug = 1%Z
   /\ match_pattern_list O1 pl n_plugin None n_plug = 0%Z.
 Proof. vm_compute. repeat split. Qed.
+
+(* ---------- whether libraries are looked at does not depend on the ORDER of the options ---------- *)
+From Coq Require Import Permutation.
+Definition opt_arg (o : cliopt) : bytes := match o with OptP a => a | OptU a => a end.
+Definition opt_has_at (o : cliopt) : bool := memb 64 (opt_arg o).
+
+Lemma memb_app c x y : memb c (x ++ y) = memb c x || memb c y.
+Proof. unfold memb. apply existsb_app. Qed.
+Lemma memb_render_opt o : memb 64 (render_opt o) = opt_has_at o.
+Proof. destruct o; reflexivity. Qed.
+
+Lemma needs_modules_render l : needs_modules (render_opts l) = existsb opt_has_at l.
+Proof.
+  unfold needs_modules. induction l as [|o l IH]; [reflexivity|].
+  destruct l as [|o' l].
+  - cbn [render_opts existsb]. rewrite memb_render_opt. now rewrite orb_false_r.
+  - change (render_opts (o :: o' :: l)) with (render_opt o ++ 59 :: render_opts (o' :: l)).
+    rewrite memb_app, memb_render_opt. change (memb 64 (59 :: render_opts (o' :: l))) with (memb 64 (render_opts (o' :: l))).
+    rewrite IH. reflexivity.
+Qed.
+
+Lemma existsb_perm {A} (f : A -> bool) l l' : Permutation l l' -> existsb f l = existsb f l'.
+Proof.
+  induction 1; cbn; try congruence.
+  - destruct (f y), (f x); reflexivity.
+Qed.
+
+Theorem visited_order_independent l l' :
+  Permutation l l' -> needs_modules (render_opts l) = needs_modules (render_opts l').
+Proof. intro P. rewrite !needs_modules_render. now apply existsb_perm. Qed.
+
+(* a library some of whose functions the list selects IS looked at - whatever the order of the options *)
+Corollary selected_module_is_visited O k funcs def t lib so name :
+  match_pattern_list O (parse_pattern_list O funcs def t) lib so name <> 0%Z ->
+  bytes_eqb def (basename lib) = false ->
+  (forall s, so = Some s -> bytes_eqb def s = false) ->
+  module_visited k funcs (parse_pattern_list O funcs def t) lib so = true.
+Proof.
+  intros H Hl Hs. destruct (module_visited k funcs (parse_pattern_list O funcs def t) lib so) eqn:V; [reflexivity|].
+  exfalso. apply H. now apply (unvisited_module_unselected O k funcs def t lib so V Hl Hs).
+Qed.
+
+(* non-vacuity: an @module option first, in the middle or last makes no difference *)
+Example visited_order_example :
+  let a := OptP [108; 64; 120] in let b := OptP [109] in let c := OptU [122] in
+  needs_modules (render_opts [a; b; c]) = true /\ needs_modules (render_opts [b; a; c]) = true
+  /\ needs_modules (render_opts [b; c; a]) = true /\ needs_modules (render_opts [b; c]) = false.
+Proof. vm_compute. repeat split. Qed.
